@@ -2,6 +2,7 @@ import DrummerVerif.Lemmas.C18
 import DrummerVerif.Lemmas.C01X
 import DrummerVerif.Bridge.Bridge
 import DrummerVerif.Lemmas.C01T
+import DrummerVerif.Lemmas.C01P
 /-!
 # C18 — the NodeHost agent reports truthfully and executes requests once, in order
 
@@ -122,6 +123,18 @@ theorem report_lists_only_running_replicas :
       ci ∈ (Loop.buildReport l h count).shardInfo →
         ∃ rep, Host.run? h ci.shardId = some rep ∧ rep.id = ci.replicaId :=
   @_root_.Drummer.buildReport_lists_only_running
+
+/-- where "Drummer holds the NodeHost's log record" comes from: the first report of a NodeHost after it came back (and every
+third one) announces its persisted logs; afterwards the replicated state has a record under the NodeHost's address,
+stamped with the current time, that lists the log of every replica the NodeHost holds data for (replica ids below 10^12,
+the range on which the model's canonical order of the announced list is defined) -/
+theorem first_report_records_the_logs :
+    ∀ (l l' : Loop) (a : Addr) (lost : Bool) (n : Nat) (h0 : Host), Loop.host? l a = some h0 →
+      (h0.reportCount = 0 ∨ (h0.reportCount + 1) % 3 = 0) →
+        ∀ (s rid : Nat) (ap : Int), ((s, rid), ap) ∈ h0.data → rid < 1000000000000 →
+          Loop.report l a lost = Outcome.ok (l', n) →
+            ∃ spec, hostFind? l'.db.hosts a = some spec ∧ spec.tick = l.db.tick ∧ HostSpec.hasLog spec s rid = true :=
+  @_root_.Drummer.first_report_records_the_logs
 
 end C18
 end Drummer
